@@ -84,7 +84,7 @@ def run(ctx):
         "hostnames and namespaces are ASCII (Go compares bytes, the model compares characters)",
         "hostnames in VirtualService / DestinationRule are fully qualified (ResolveShortnameToFQDN is the identity on names containing a dot)",
         "services have pairwise distinct (creationTime, name, namespace) sort keys (SortServicesByCreationTime is then a total order; multi-host ServiceEntry ties belong to C17)",
-        "at most one visible Kubernetes service per hostname and distinct creation times among services sharing a hostname (pickBestVisibleNamespace ranges over a Go map; theorem pickBest_order_independent_partial, witness otherwise)",
+        "at most one Kubernetes service per hostname in generated meshes (the oracle's Kubernetes tie-break clause names a single expected namespace); pickBestVisibleNamespace itself is order independent for all inputs (pickBest_order_independent, /repo d30d8f4)",
         "Attributes.Aliases is an input (resolveServiceAliases is not modelled); all workloadSelectors of DestinationRules are equal",
         "the proxy namespace is not one of the exportTo keywords '.', '~' (ValidNs) and no VirtualService lives in a namespace named '*'",
         "completeness is stated for export sets in which '~' does not stand next to a namespace or '.' (ExportWF; validation enforces it for ServiceEntry; witness exported_mixed_none_witness otherwise)",
@@ -147,7 +147,7 @@ MANIFEST = {
                    "SidecarScope.services is a mesh service Visible to the proxy namespace and Imported by the scope) ; scope_complete / default_scope_complete "
                    "(visible + matched by a port-unrestricted egress host => delivered or displaced by a visible same-hostname winner); exact_fastpath_parity; "
                    "vs_export_sound, dr_export_sound (a rule not exported to the proxy namespace is never selected); gateway_scope_sound; "
-                   "pickBest_order_independent_partial. Two defects found by the proof obligations and reproduced on the real code were repaired in /repo "
+                   "pickBest_order_independent. Two defects found by the proof obligations and reproduced on the real code were repaired in /repo "
                    "(F7 VirtualService-destination leak, F10 exact-host fast path dropping a service shadowed by a hidden duplicate); the old behaviours are "
                    "kept as theorems scope_sound_fails_unfixed / exact_path_incomplete_witness_unfixed and as corpus cases. The model is tied to /repo on every run "
                    "by a line-by-line differential against a real PushContext / SidecarScope / CDS generator, and an independent Go oracle states the property on the real output."),
